@@ -194,7 +194,7 @@ def run(ctx):
     st.sample({'logic': 'CTL', 'text': 'A F G q', 'must_reject': True})
     # long and deeply nested inputs, multi-line errors, quoted-atom corners (explicit cases)
     deep = []
-    for n in (60, 400):
+    for n in (60, 400, 1500):
         deep += ['(' * n + 'p' + ')' * n, 'not ' * n + 'p', '(' * n + 'p' + ')' * (n - 1), '(' * (n - 1) + 'p' + ')' * n,
                  ' and '.join(['p'] * n), '(' + ' or '.join(['q'] * n) + ') and', 'p\n' * n, '~' * n + 'q' + '\n$']
     deep += ['p and\n\tq $', 'p\n\n and', '\n\n', '\t', 'p and "a\nb"', '"a\\"', '""', '"" and "\\\\"', '"', '"p', 'p"',
